@@ -58,6 +58,9 @@ type sim struct {
 
 	tuples []tuple
 	cache  map[string]string // C12: last observed content per tuple
+	preLen int
+	cur    map[string]string // known-finding key of the command shapes just executed, per addressed tuple
+	taint  map[string]string // tuples damaged by a recorded deviation (no further judgement)
 
 	ncmd, ncompared, nbatch, nbatched, nenv int
 	restores                                int
@@ -114,7 +117,7 @@ func drawCfg(c *core.RunCtx) cfg {
 }
 
 func Run(c *core.RunCtx) {
-	s := &sim{c: c, t: c.Tape, cache: map[string]string{}}
+	s := &sim{c: c, t: c.Tape, cache: map[string]string{}, taint: map[string]string{}}
 	s.on08 = c.Prop == "" || c.Prop == "C08"
 	s.on09 = c.Prop == "" || c.Prop == "C09"
 	s.on12 = c.Prop == "" || c.Prop == "C12"
@@ -366,6 +369,13 @@ func (s *sim) note(args []string, r interface{}) {
 
 // one runs a single command and all oracles on it.
 func (s *sim) one(args []string) {
+	s.preLen = -1
+	if args[0] == "ltrim" && len(args) > 1 {
+		// ground truth for the shape of a recorded LTRIM deviation only
+		if n, ok := num(s.rd("llen", args[1])); ok {
+			s.preLen = int(n)
+		}
+	}
 	r := s.do(args)
 	s.ncmd++
 	s.c.Log("cmd", "%s -> %s", q(args), nodeh.Fmt(r))
@@ -378,93 +388,127 @@ func (s *sim) one(args []string) {
 func (s *sim) after(cmds [][]string, replies []interface{}, ctx string) {
 	c := s.c
 	tset := map[string]tuple{}
+	s.cur = map[string]string{}
+	useModel := s.on08 || s.on12
+	broken := false
 	for i, args := range cmds {
 		if closedConn(replies[i]) {
 			c.Violate(s.prop("C08"), "handler-panic-or-no-reply", "", "%s%s: %s", ctx, q(args), nodeh.Fmt(replies[i]))
 			return
 		}
+		var want interface{}
+		if useModel {
+			want = s.mdl.Apply(args)
+		}
+		preLen := -1
+		if len(cmds) == 1 {
+			preLen = s.preLen
+		}
+		key := knownShape(args, want, s.mdl, preLen)
+		tainted := false
 		for _, x := range touched(args) {
 			tset[x.id()] = x
+			if key != "" {
+				s.cur[x.id()] = key
+			}
+			if s.taint[x.id()] != "" {
+				tainted = true
+			}
 		}
-		if s.on08 || s.on12 {
-			s.compare(args, replies[i], ctx)
+		if useModel && !broken {
+			if tainted {
+				// the key was damaged by a recorded deviation: adopt whatever it holds now
+				broken = true
+			} else if !s.compare(args, replies[i], want, key, ctx) {
+				// within a batch nothing after the first mismatch can be judged
+				broken = true
+			}
 		}
 	}
 	var ts []tuple
 	for _, id := range core.SortedKeys(tset) {
 		ts = append(ts, tset[id])
 	}
-	if s.on08 || s.on12 {
-		// the resulting data of the addressed keys
-		for _, x := range ts {
-			s.dataCheck(x, ctx+"after "+q(cmds[len(cmds)-1]), cmds)
-		}
+	if broken {
+		s.resync(ts)
 	}
-	if s.on09 {
-		for _, x := range ts {
-			s.check09(x, ctx+"after "+q(cmds[len(cmds)-1]))
+	where := ctx + "after " + q(cmds[len(cmds)-1])
+	for _, x := range ts {
+		if useModel {
+			s.dataCheck(x, where)
+		}
+		if s.on09 {
+			s.check09(x, where)
 		}
 	}
 	if s.on12 {
-		s.check12(tset, ctx+"after "+q(cmds[len(cmds)-1]))
+		s.check12(tset, where)
 	}
+	s.cur = nil
 }
 
-// compare: reply of the implementation against the reference model.
-func (s *sim) compare(args []string, got interface{}, ctx string) {
-	want := s.mdl.Apply(args)
+// compare: reply of the implementation against the reference model. Returns
+// false on a mismatch.
+func (s *sim) compare(args []string, got, want interface{}, key string, ctx string) bool {
 	s.ncompared++
 	if e, ok := want.(model.Err); ok && strings.HasSuffix(string(e), "not modelled") {
-		return
+		return true
 	}
 	if model.Equal(got, want) {
-		return
+		return true
 	}
-	key := knownReply(args, got, want)
 	if survey(key, "reply %s => impl %s | model %s", q(args), nodeh.Fmt(got), model.Canon(want)) {
-		s.resync(touched(args))
-		return
+		return false
 	}
 	prop, rule := s.prop("C08"), "reply-differs-from-model"
 	if s.c.Prop == "C12" {
 		if key != "" {
 			// a recorded C08 deviation is not an isolation failure
-			s.resync(touched(args))
-			return
+			return false
 		}
 		rule = "reply-differs-under-adversarial-names"
 	}
 	s.c.Violate(prop, rule, key, "%s%s answered %s, the reference model (Redis semantics + documented deviations) says %s", ctx, q(args), nodeh.Fmt(got), model.Canon(want))
-	s.resync(touched(args))
+	return false
 }
 
 // dataCheck: content, size and existence of one (type, key) against the model.
-func (s *sim) dataCheck(x tuple, ctx string, cmds [][]string) {
-	got := s.rd(model.DumpCmd(x.typ, x.key)...)
-	want := s.mdl.Dump(x.typ, x.key)
-	if model.Equal(got, want) {
+func (s *sim) dataCheck(x tuple, ctx string) {
+	if s.taint[x.id()] != "" {
 		return
 	}
-	key := ""
-	for _, a := range cmds {
-		if k := knownData(a, x); k != "" {
-			key = k
-		}
+	type probe struct {
+		cmd  []string
+		want interface{}
 	}
-	if survey(key, "data %s %q after %s => impl %s | model %s", x.typ, x.key, ctx, nodeh.Fmt(got), model.Canon(want)) {
+	ps := []probe{{model.DumpCmd(x.typ, x.key), s.mdl.Dump(x.typ, x.key)}}
+	if x.typ != "kv" {
+		ps = append(ps, probe{[]string{sizeCmd[x.typ], x.key}, s.mdl.Apply([]string{sizeCmd[x.typ], x.key})})
+	}
+	ps = append(ps, probe{[]string{existCmd[x.typ], x.key}, s.mdl.Apply([]string{existCmd[x.typ], x.key})})
+	for _, p := range ps {
+		got := s.rd(p.cmd...)
+		if model.Equal(got, p.want) {
+			continue
+		}
+		key := s.cur[x.id()]
+		if !survey(key, "data %s after %s => impl %s | model %s", q(p.cmd), ctx, nodeh.Fmt(got), model.Canon(p.want)) {
+			prop, rule := s.prop("C08"), "data-differs-from-model"
+			if s.c.Prop == "C12" {
+				rule = "data-differs-under-adversarial-names"
+			}
+			if !(s.c.Prop == "C12" && key != "") {
+				s.c.Violate(prop, rule, key, "%s: %s answers %s, the reference model says %s", ctx, q(p.cmd), nodeh.Fmt(got), model.Canon(p.want))
+			}
+		}
+		if key != "" {
+			// recorded deviation that damages the key: no further judgement on it
+			s.taint[x.id()] = key
+			s.c.Count("tainted_keys", 1)
+		}
 		s.resync([]tuple{x})
 		return
 	}
-	prop, rule := s.prop("C08"), "data-differs-from-model"
-	if s.c.Prop == "C12" {
-		if key != "" {
-			s.resync([]tuple{x})
-			return
-		}
-		rule = "data-differs-under-adversarial-names"
-	}
-	s.c.Violate(prop, rule, key, "%s: %s %q holds %s, the reference model says %s", ctx, x.typ, x.key, nodeh.Fmt(got), model.Canon(want))
-	s.resync([]tuple{x})
 }
 
 // resync adopts the implementation's content of the given keys in the model
@@ -504,13 +548,7 @@ func (s *sim) fullCheck(what string) {
 	ctx := "after " + what
 	for _, x := range s.tuples {
 		if s.on08 || s.on12 {
-			s.dataCheck(x, ctx, nil)
-			for _, cmd := range []string{sizeCmd[x.typ], existCmd[x.typ]} {
-				got, want := s.rd(cmd, x.key), s.mdl.Apply([]string{cmd, x.key})
-				if !model.Equal(got, want) && !survey("", "size %s %q %s => impl %s | model %s", cmd, x.key, ctx, nodeh.Fmt(got), model.Canon(want)) {
-					c.Violate(s.prop("C08"), "data-differs-from-model", "", "%s: %s %q answers %s, the reference model says %s", ctx, cmd, x.key, nodeh.Fmt(got), model.Canon(want))
-				}
-			}
+			s.dataCheck(x, ctx)
 		}
 		if s.on09 {
 			s.check09(x, ctx)
@@ -684,7 +722,7 @@ func (s *sim) tableDelete() {
 	ctx := fmt.Sprintf("after whole-table delete of %q", tb)
 	for _, id := range core.SortedKeys(ts) {
 		x := ts[id]
-		s.dataCheck(x, ctx, nil)
+		s.dataCheck(x, ctx)
 		if s.on09 {
 			s.check09(x, ctx)
 		}
